@@ -1,15 +1,18 @@
 CONSTANTS
-  Variant = "fixed"
-  Datas <- DatasD
-  Limits = {5, 9}
+  Variant = "over"
+  Datas <- DatasQ
+  Limits = {0, 2, 4, 6}
   Modes = {TRUE, FALSE}
   RIs = {TRUE, FALSE}
-  BufSizes = {1, 4}
-  KMax = 3
+  BufSizes = {2, 3}
+  KMax = 2
   ErrBudget = 1
   MaxOps = 2
-  Sizes = {2, 10}
+  Sizes = {1, 3, 8}
   OpNames = {"read", "read1", "peek", "readall", "readline", "next", "readinto", "readinto1"}
 INIT Init
 NEXT Next
-INVARIANT ExportHist
+VIEW ViewNoHist
+INVARIANT Contract
+INVARIANT NoOverReadInv
+INVARIANT Accounting
